@@ -85,6 +85,7 @@ const char *vf_regname(struct areg r) {
 void vf_fmt_num(char *dst, int k, int style) {
   if (style == 0) sprintf(dst, "0x%lx", VF_NUM[k]);
   else if (style == 3) sprintf(dst, "0x000%lx", VF_NUM[k]);
+  else if (style == 4) sprintf(dst, "000%lu", VF_NUM[k]);
   else if (style == 1) sprintf(dst, "0x%016lx", VF_NUM[k]);
   else sprintf(dst, "%lu", VF_NUM[k]);
 }
@@ -208,8 +209,8 @@ unsigned long strtoul(const char *s, char **end, int base) {
   if (*p == '-') { neg = 1; p++; } else if (*p == '+') p++;
   int hex = p[0] == '0' && p[1] == 'x';
   const char *d = hex ? p + 2 : p;
-  /* hexadecimal placeholder written with leading zeros */
-  if (hex) while (d[0] == '0' && d[1] >= '0' && d[1] <= '9') d++;
+  /* placeholder written with leading zeros (hexadecimal after 0x, or decimal) */
+  while (d[0] == '0' && d[1] >= '0' && d[1] <= '9') d++;
   if (d[0] >= '1' && d[0] < '1' + VF_NNUM && d[1] == d[0]) {
     int k = d[0] - '1';
     if (hex) CHECK(base == 16 || base == 0, "hexadecimal literal converted in base 16");
